@@ -48,7 +48,14 @@ about the **input**: unmutated generated programs and Go-compatible near-misses 
 reported as `lowering:*` (specific sites — this is where a wrong lowering shows up); Go-compatible near-misses that
 go/types rejects too, and near-misses of XGo-only programs, are two family sites listed as known findings; the fixed
 list of repository snippets that compile but are not valid Go is listed by Go message class (`corpus:*`). The Go
-message classes observed are counted in the evidence (`go-rejection-class:*`).""",
+message classes observed are counted in the evidence (`go-rejection-class:*`).
+*Open gap (wave 10, `seeded/C06d`, not detected):* a duplicate unnamed composite type in two type-switch clauses
+(`case []int:` … `case string, []int:`) accepted by the compiler. Two reasons: generated type switches only list
+named/basic types, and any near-miss of a Go program that Go also rejects lands in the single known site
+`accepts-invalid-program:near-miss-of-a-go-program-that-go-rejects-too`, which would absorb it. The sound strengthening is
+to split that site by Go's rejection class (the classes are already counted as `invalid-go-input-rejected-by-go-as:*`
+coverage) and list only the classes seen on the unchanged tree; it needs a multi-seed thorough enumeration first so that
+the split does not alarm on the unchanged tree, and was not done.""",
 "C07": """Q ≈3 500 packages / T ≈122 000 through cl.NewPackage+WriteTo and x/build; one defect fixed (bodiless function
 declaration made WriteTo panic). A third of the cases compile with an x/typesutil recorder attached (Config.Recorder
 changes which code runs, e.g. goxRecorder.Complete in a defer) and a case kind draws unusual declaration shapes
@@ -61,7 +68,10 @@ constant; nobody rejects the invalid recursive type). Stack-overflow sites are n
 (`crash:fatal error: stack overflow:in:<functions>`), so another runaway recursion is a different site.""",
 "C08": """Q 700 packages × (5 in-process + 1 other-process compilations) / T 20 000. One known finding: gogen reports
 "label X defined and not used" in map-iteration order. An ad-hoc mutant (files sorted by name length instead of
-name) is caught in all package kinds.""",
+name) is caught in all package kinds.
+*Open gap (wave 10, `seeded/C08d`, not detected):* project class files loaded in map order — only visible in a package with
+two project files of different class frameworks (`App.tgmx` + `Game.t2gmx`); the generated class projects have exactly
+one project file. Strengthening: register a second framework in the harness's LookupClass and generate such packages.""",
 "C09": """Q 40 programs / T 1 500 (≈25 statements each). Two defects fixed (a function loaded on demand clobbered the pending
 //line comment of the calling statement; lambda bodies inherited the enclosing statement's line), one known (a var
 declaration under a multi-line block comment, probe). Round-0 deviation: run-time function entry lines
